@@ -54,7 +54,7 @@ def impl(case):
     return A, G
 
 
-def oracle_graph(ctx, G, A, idx, r, case_desc, where):
+def oracle_graph(ctx, G, A, idx, r, case_desc, where, atol=ATOL):
     """direct statement of the property on the implementation's output"""
     n = G.shape[0]
     Gc = sp.coo_matrix(G)
@@ -68,7 +68,7 @@ def oracle_graph(ctx, G, A, idx, r, case_desc, where):
         fails.append(("range", "stored entry outside (0,1]: min %r max %r" % (Gc.data.min(), Gc.data.max())))
     if np.any(np.diag(Gd) != 0):
         fails.append(("diagonal", "non-empty diagonal"))
-    if np.abs(Gd - Gd.T).max() > ATOL:
+    if np.abs(Gd - Gd.T).max() > atol:
         fails.append(("symmetry", "asymmetric by %g" % np.abs(Gd - Gd.T).max()))
     nb = np.zeros((n, n), bool)
     for i in range(n):
@@ -83,14 +83,14 @@ def oracle_graph(ctx, G, A, idx, r, case_desc, where):
         a = np.asarray(A.todense(), dtype=np.float64)
         b = a.T
         want = r * (a + b - a * b) + (1 - r) * a * b
-        if np.abs(want - Gd).max() > ATOL:
+        if np.abs(want - Gd).max() > atol:
             i, j = np.unravel_index(np.abs(want - Gd).argmax(), want.shape)
             fails.append(("formula", "entry (%d,%d): %r, formula gives %r (a=%r b=%r r=%r)" % (i, j, Gd[i, j], want[i, j], a[i, j], b[i, j], r)))
-        if r == 1 and np.any(Gd < np.maximum(a, b) - ATOL):
+        if r == 1 and np.any(Gd < np.maximum(a, b) - atol):
             fails.append(("union_ge_max", "r=1 entry below max(a,b)"))
-        if r == 0 and np.any(Gd > np.minimum(a, b) + ATOL):
+        if r == 0 and np.any(Gd > np.minimum(a, b) + atol):
             fails.append(("inter_le_min", "r=0 entry above min(a,b)"))
-        if np.any((want > ATOL) & ~sup):
+        if np.any((want > atol) & ~sup):
             fails.append(("missing", "formula non-zero but entry absent"))
     for sig, msg in fails:
         ctx.fail("%s:%s" % (where, sig), msg, case_desc)
@@ -156,18 +156,20 @@ def run(ctx):
                 what = "stored zero" if code == -2 else "entry (%d,%d)" % divmod(code, cs["n"])
                 ctx.diff(cs, what)
     # public API: fit(...).graph_ on dense / sparse / precomputed inputs with several metrics
-    api_cases = 8 if ctx.tier == "quick" else 60
+    api_cases = 12 if ctx.tier == "quick" else 80
     for c in range(api_cases):
         n = rng.randint(12, 40); k = rng.randint(2, 10); dim = rng.randint(2, 6)
         X = npr.normal(size=(n, dim)) * 10 ** rng.uniform(-1, 2)
         r = rng.choice([0.0, 0.3, 1.0]); lc = rng.choice([1, 1, 2])
-        kind = rng.choice(["dense", "sparse", "precomputed"])
+        kind = ["dense", "sparse", "precomputed", "precomputed_sparse"][c % 4]
         metric = rng.choice(["euclidean", "manhattan", "cosine", "chebyshev"])
         data = X
         if kind == "sparse":
             Xs = X.copy(); Xs[npr.random(Xs.shape) < 0.4] = 0; data = sp.csr_matrix(Xs)
-        if kind == "precomputed":
+        if kind in ("precomputed", "precomputed_sparse"):
             data = np.sqrt(((X[:, None] - X[None]) ** 2).sum(-1)); metric = "precomputed"
+        if kind == "precomputed_sparse":      # scipy-sparse symmetric distance matrix (zero diagonal not stored): its own branch of fit
+            data = sp.csr_matrix(data.astype(np.float32)); r = rng.choice([0.0, 0.5, 1.0]); lc = rng.choice([1, 2, 0.5]) if k > 3 else 1
         desc = dict(api="UMAP.fit", n=n, k=k, r=r, lc=lc, kind=kind, metric=metric, X=X)
         try:
             m = umap.UMAP(n_neighbors=k, set_op_mix_ratio=r, local_connectivity=lc, metric=metric, n_epochs=0,
@@ -178,13 +180,23 @@ def run(ctx):
         from sklearn.metrics import pairwise_distances
         Xd = np.asarray(data.todense()) if sp.issparse(data) else data
         D = Xd.astype(np.float64) if metric == "precomputed" else pairwise_distances(Xd.astype(np.float32).astype(np.float64), metric=metric)
-        kth = np.sort(D, axis=1)[:, m._n_neighbors - 1]
-        idx = [[j for j in range(n) if D[i, j] <= kth[i] * (1 + 1e-5) + 1e-12] for i in range(n)]
         rs = np.random.RandomState(0)
-        A, _, _ = U.fuzzy_simplicial_set(D.astype(np.float32), m._n_neighbors, rs, "precomputed",
-                                         set_op_mix_ratio=r, local_connectivity=float(lc), apply_set_operations=False)
+        if kind == "precomputed_sparse":
+            # neighbours are taken among the stored (off-diagonal) entries: the k nearest *other* samples
+            Do = D + np.diag(np.full(n, np.inf)); order = np.argsort(Do, axis=1, kind="stable")[:, :k]
+            kd = np.take_along_axis(Do, order, axis=1).astype(np.float32)
+            idx = [order[i].tolist() for i in range(n)]
+            A, _, _ = U.fuzzy_simplicial_set(D.astype(np.float32), k, rs, "precomputed", knn_indices=order.astype(np.int64), knn_dists=kd,
+                                             set_op_mix_ratio=r, local_connectivity=float(lc), apply_set_operations=False)
+        else:
+            kth = np.sort(D, axis=1)[:, m._n_neighbors - 1]
+            idx = [[j for j in range(n) if D[i, j] <= kth[i] * (1 + 1e-5) + 1e-12] for i in range(n)]
+            A, _, _ = U.fuzzy_simplicial_set(D.astype(np.float32), m._n_neighbors, rs, "precomputed",
+                                             set_op_mix_ratio=r, local_connectivity=float(lc), apply_set_operations=False)
+        # the directed strengths are re-derived from independently computed distances: float32 rounding of those distances moves the
+        # calibrated bandwidths a little, hence the looser tolerance than for the table-level cases above
         oracle_graph(ctx, m.graph_.tocsr(), A.tocsr() if metric in ("precomputed", "euclidean", "manhattan", "chebyshev") else None,
-                     idx, r, desc, "UMAP.fit.graph_")
+                     idx, r, desc, "UMAP.fit.graph_", atol=2e-5 if metric == "precomputed" else 2e-4)
         ctx.tag(("api", c, n, k, r, kind, metric), ["api_" + kind])
         ctx.count("api_" + kind)
     return ctx.finish(RULE, assumptions=["float32 sparse arithmetic of SciPy is observed, not modelled (tolerance %g)" % ATOL,
